@@ -447,6 +447,8 @@ C19_run(H) ==
     LET ex == H.par.expect IN
     /\ H.out.panic = ""
     /\ ex.reject => ~H.out.ok
+    \* an accepted parameter set towards a routable address is EXECUTED (no fault is injected in these scenarios): "rejected or executed"
+    /\ (~ex.reject /\ ex.addr \notin {"255.255.255.255", "fe80::1"} /\ Len(H.flt) = 0 /\ H.cancel < 0) => H.out.ok
     /\ H.out.ok =>
          /\ WireRuns(H) # {}
          /\ \A w \in WireRuns(H) :
